@@ -305,7 +305,8 @@ def _meta_case(args):
                     if v0l is not None and (v4l is None or num(v4l) < num(v0l)):
                         fail({"orig": lc, "twin": dict(lc, costs=c2)}, f"{'unordered' if unordered else 'ordered'} solver: raising a unit cost lowered the minimum: {v0l} -> {v4l}", {})
                 v3l, n3 = labelled_result(outgroup(lc), unordered)
-                if v3l != v0l or (lc["costs"]["floss"] > 0 and n3 != n0):
+                # F-OUTGROUP-TIES: with floss = 0 the outgroup may ADD optima (those using the new root); it never removes one
+                if v3l != v0l or (n3 != n0 if lc["costs"]["floss"] > 0 else n3 < n0):
                     fail({"orig": lc}, f"{'unordered' if unordered else 'ordered'} solver: outgroup changed the result: {v0l},{n0} -> {v3l},{n3}", {})
     return fails, stats, notes
 
@@ -418,7 +419,7 @@ def replay_case(payload):
         return (v1 == v and s1 == sorted(s, key=json.dumps)), "rerun in a fresh process with another hash seed", [v, len(s), v1, len(s1)]
     if "outgroup" in what:
         v1, n1 = res(outgroup(orig))
-        ok = v1 == v0 and (n1 == n0 or orig["costs"]["floss"] == 0)
+        ok = v1 == v0 and (n1 == n0 or (orig["costs"]["floss"] == 0 and n1 > n0))
         return ok, f"outgroup: {v0},{n0} -> {v1},{n1}", [v0, n0, v1, n1]
     if "scaling" in what:
         import re
